@@ -3,7 +3,8 @@ from __future__ import annotations
 
 from .corpus import BY_LANG, CONTENTS, EXT, LANGS
 
-DIRS = ["", "", "src", "src", "src/deep/er", "lib", "x/y/z", "pkg", "pkg/sub", "src/a.py"]
+DIRS = ["", "", "src", "src", "src/deep/er", "lib", "x/y/z", "pkg", "pkg/sub", "src/a.py",
+        "a_rather_long_directory_name/with_another_long_component/and_a_third_one"]
 STEMS = ["a", "b", "c", "d", "K", "m", "w", "main"]
 HIDDEN = [".h.py", ".hid/x.py", "src/.hid/x.py", "src/.h.js", ".hid/deep/y.ts", ".ci/build.py", ".tools/t.js", ".github/a.ts",
           "src/.ci/c.cs"]
@@ -13,13 +14,15 @@ UNSUPPORTED = ["notes.txt", "README", "Makefile", "a.PY", "a.py.bak", "data.json
 ODD_SUPPORTED = ["SConstruct", "src/SConscript"]       # Pygments maps these names to Python
 WEIRD = ['we"ird.py', "back\\slash.py", "café.py", "sp ace.js", "src/qu'ote.ts", "-dash.py", "files.py", "tree/files.js",
          "codebase/totals.c", "a b/c d.py", "ünï/cödé.ts", "x" * 120 + ".py", "src/profile/entries.java", "root.cs", "..py", "a..b.js",
-         "src/[brackets].py", "50%.c", "dollar$.ts", "semi;colon.py"]
+         "src/[brackets].py", "50%.c", "dollar$.ts", "semi;colon.py",
+         "cafe\u0301.py", "src/nai\u0308ve/u\u0308ber.js",      # decomposed (NFD) spellings, next to NFC café.py
+         "caf\udce9.py"]                                          # a name that is not valid UTF-8 (byte E9)
 DISTRACTOR_DIRS = ["src", "lib", "pkg", "x/y"]
 
 GOOD_SHAPES = ("one2", "one15", "one16", "one30", "one31", "one60", "one61", "one75", "multi", "multi2",
                "strings", "nested", "mlhdr", "nonl", "enc_utf8", "multi_ws", "comments", "empty", "ws", "uni", "nocl")
 LONG_SHAPES = ("one31", "one60", "one61", "one75", "multi", "multi2", "nested", "enc_utf8", "enc_latin1", "enc_crlf",
-               "bare31", "bare61", "uni", "nocl", "twins", "enc_cr", "enc_mixed")
+               "bare31", "bare61", "uni", "nocl", "twins", "enc_cr", "enc_mixed", "bombare")
 BAD_SHAPES = ("unbal", "half", "closers", "enc_latin1", "enc_utf16", "enc_bom", "enc_crlf", "enc_cr", "enc_mixed")
 
 
